@@ -260,6 +260,7 @@ fn op_classify(payload: &str) -> String {
         tile_px: f64,
         morph_cost: f64,
         octaves: u32,
+        turb_freq: f64,
     }
     fn paint_tile(p: &usvg::Paint, ts: tiny_skia::Transform, acc: &mut Acc) {
         if let usvg::Paint::Pattern(ref pat) = p {
@@ -301,6 +302,10 @@ fn op_classify(payload: &str) -> String {
                     }
                     usvg::filter::Kind::Turbulence(ref t) => {
                         acc.octaves = acc.octaves.max(t.num_octaves());
+                        let fq = (t.base_frequency_x().get() as f64).max(t.base_frequency_y().get() as f64);
+                        if fq > acc.turb_freq {
+                            acc.turb_freq = fq;
+                        }
                     }
                     _ => {}
                 }
@@ -336,7 +341,7 @@ fn op_classify(payload: &str) -> String {
     walk(tree.root(), ts, w, h, &mut acc);
     let fin = |x: f64| if x.is_finite() { x } else { 1e300 };
     format!(
-        "{{\"filters\":{},\"filter_px\":{:e},\"filter_outside\":{},\"patterns\":{},\"tile_px\":{:e},\"morph_cost\":{:e},\"octaves\":{}}}",
-        acc.filters, fin(acc.filter_px), acc.filter_outside, acc.patterns, fin(acc.tile_px), fin(acc.morph_cost), acc.octaves
+        "{{\"filters\":{},\"filter_px\":{:e},\"filter_outside\":{},\"patterns\":{},\"tile_px\":{:e},\"morph_cost\":{:e},\"octaves\":{},\"turb_freq\":{:e}}}",
+        acc.filters, fin(acc.filter_px), acc.filter_outside, acc.patterns, fin(acc.tile_px), fin(acc.morph_cost), acc.octaves, fin(acc.turb_freq)
     )
 }
